@@ -16,6 +16,10 @@ def main():
     try:
         import c16
         print("gosync:", c16.run_gosync())
+        try:
+            print("gosrc:", run_gosrc())
+        except BuildError as e:      # informational tie only
+            print("gosrc failed:", e.what)
         for mod in mods:
             if getattr(mod, "GOTAB", None):
                 print(mod.PID, "gotab:", run_gotab(mod))
